@@ -59,7 +59,7 @@ CHECKS = {
     engine="pathflags",
     technique="path-sensitive abstract interpretation (symbolic store, linear path facts decided by Fourier-Motzkin, opaque loop phis, bounded inlining of helpers and nested exported callees) with a handler-count/code typestate; return conventions per function",
     category="other",
-    text="For every exported function all paths are covered at once: at each return the number of constraint-handler invocations on the path and the code passed are compared with the returned indication (errno_t, negated int, EOF, NULL+*errp, false, 0). Nested calls are inlined so that whether they can report is decided from the guards on the path, which is what separates a real double report from a quiet nested call. Which inputs are violations is taken from the code's own checks; the clause 'RSIZE rejected before dest/src is touched' is not decided yet.",
+    text="For every exported function all paths are covered at once: at each return the number of constraint-handler invocations on the path and the code passed are compared with the returned indication (errno_t, negated int, EOF, NULL+*errp, false, 0). Nested calls are inlined so that whether they can report is decided from the guards on the path, which is what separates a real double report from a quiet nested call. Which inputs are violations is taken from the code's own checks. Ordering clause: in the 102 functions with a structurally recognised RSIZE limit check (size > K whose taken side reports), no load, store or libc call reaches dest/src/str at a path state where size > K is still possible (clearing inside the error helpers, dest == NULL length queries and sizes bounded by a known object size are exempt).",
     design_ref="DESIGN.md §3.3, §4 C05",
     note=TB + "; the handler returns normally with errno intact; listed value-level assumptions for four nested copies (sa/checks/c05.py ASSUME_QUIET); 46 triaged known findings (reproduced representatives) remain in known_findings.json"),
  "C04": dict(
